@@ -181,6 +181,25 @@ class Ctx:
         self.extra["apalache_inductive_invariant"] = {"module": module, "invariant": indinv, "initiation": res[0], "consecution": res[1]}
         self.checker_cmds.append("apalache-mc check --cinit=%s --init=%s|%s --inv=%s --length=0|1 %s.tla" % (cinit, init, indinv, indinv, module))
 
+    def tlaps(self, module, timeout=600):
+        """Proof of the design model's safety theorem with the TLA+ proof system (unbounded in the constants).
+        An extra on top of TLC; a failing proof is an infrastructure error, never a verdict on the code."""
+        d = self._spec_copy(SPECS)
+        t = time.time()
+        try:
+            p = subprocess.run(["tlapm", "--threads", str(NCPU), "--cleanfp", module + ".tla"], cwd=d, stdout=subprocess.PIPE,
+                               stderr=subprocess.STDOUT, timeout=timeout, text=True)
+        except subprocess.TimeoutExpired:
+            raise Infra("tlapm timeout on %s" % module)
+        m = re.search(r"All (\d+) obligations? proved", p.stdout)
+        if not m:
+            sys.stdout.write(p.stdout[-3000:])
+            raise Infra("tlapm did not prove %s" % module)
+        n = int(m.group(1))
+        log("  [tlaps] %s: all %d obligations proved (%.1fs)" % (module, n, time.time() - t))
+        self.extra["tlaps_proof"] = {"module": module, "obligations": n, "discharged": n}
+        self.checker_cmds.append("tlapm --threads %d %s.tla" % (NCPU, module))
+
     def tlc_generate(self, family, module, cfg, workers=4, args=(), timeout=600, env=None, heap="4g"):
         """Behaviour generation (U2): the Gen config prints JSON scenarios with
         PrintT(<<"SCN", ToJson(...)>>); returns the list of decoded objects."""
